@@ -91,7 +91,7 @@ def run(ctx: core.Ctx):
     from ynca.connection import YncaProtocol, YncaProtocolStatus
 
     names = {YncaProtocolStatus.OK: "OK", YncaProtocolStatus.UNDEFINED: "UNDEFINED", YncaProtocolStatus.RESTRICTED: "RESTRICTED"}
-    n_streams = 20000 if thorough else 1500
+    n_streams = 100000 if thorough else 1500
     ops, real_out, metas = [], [], []
     disagreements = []
     for sno in range(n_streams):
@@ -157,7 +157,7 @@ def run(ctx: core.Ctx):
         if sno < 4:
             ctx.sample({"lines": lines and [l[:40] for l in lines[:4]], "tail": tail, "chunk_sizes": [len(c) for c in chunks][:12]})
     # ---- regex vs parseLine on an adversarial alphabet (real handle_line, no framing)
-    n_re = 200000 if thorough else 20000
+    n_re = 1000000 if thorough else 20000
     got = []
     proto = YncaProtocol(lambda st, su, fn, v: got.append((names[st], su, fn, v)), None, 0)
     for _ in range(n_re):
